@@ -12,6 +12,8 @@ LEVEL = "exploration"
 ORDER_PLAIN = 1.75          # clean-tree minima: 1.94 (weighted l2) / 1.84 (max)
 ORDER_EX_L2 = 3.2           # clean-tree minimum 3.41
 ORDER_EX_INF = 2.5          # clean-tree minimum 2.77 (tends to 3 from below for the Cartesian problems)
+VARIANT_TOL = 1e-6          # clean-tree maximum 1.6e-10
+ORDER_PLAIN_COARSE = 1.5    # first pair 17x32 -> 33x64 is pre-asymptotic: clean-tree minima 1.88 / 1.66 (extrapolated 3.53 / 2.73)
 PROB_NAMES = {0: "CartesianR2", 1: "CartesianR6", 2: "PolarR6"}
 GEOM_NAMES = {0: "CircularGeometry", 1: "ShafranovGeometry", 2: "CzarnyGeometry"}
 PROF_NAMES = {(0, 0): "Poisson", (1, 0): "Sonnendrucker", (1, 1): "SonnendruckerGyro", (2, 0): "Zoni", (2, 1): "ZoniGyro",
@@ -56,7 +58,7 @@ def main(tier):
     rep = common.Reporter(PID, tier, LEVEL)
     binary = _build()
     cfgs = configs(tier)
-    chain = (1, 2, 3) if tier == "thorough" else (1, 2)
+    chain = (0, 1, 2, 3) if tier == "thorough" else (0, 1, 2)
     lines, index = [], {}
     for i, cfg in enumerate(cfgs):
         for d in chain:
@@ -82,6 +84,7 @@ def main(tier):
     res = gl.run_cases(binary, lines, chunk=4)
     worst = {"plain_l2": 9, "plain_inf": 9, "ex_l2": 9, "ex_inf": 9}
     errs = {}
+    groups = {}
     pairs = 0
     for i, cfg in enumerate(cfgs):
         name = class_name(cfg)
@@ -96,6 +99,8 @@ def main(tier):
         e2 = [gl.num(r, "he2") for r in rs]
         ei = [gl.num(r, "heinf") for r in rs]
         errs[(name, cfg["dirbc"], cfg["strat"], cfg["cc"], cfg["cg"], cfg["extr"])] = (e2[-1], ei[-1])
+        for d, r, a2, ai in zip(chain_i, rs, e2, ei):
+            groups.setdefault((name, cfg["dirbc"], cfg["extr"], d), []).append((a2, ai, cfg, "%sx%s" % (r["nr"], r["nt"])))
         for a in range(len(chain_i) - 1):
             pairs += 1
             o2 = math.log(e2[a] / e2[a + 1]) / math.log(2.0) if e2[a + 1] > 0 else 99
@@ -106,7 +111,8 @@ def main(tier):
             if not is_f1:
                 worst[kk + "_l2"] = min(worst[kk + "_l2"], o2)
                 worst[kk + "_inf"] = min(worst[kk + "_inf"], oi)
-            need2, needi = (ORDER_EX_L2, ORDER_EX_INF) if ex else (ORDER_PLAIN, ORDER_PLAIN)
+            plain = ORDER_PLAIN_COARSE if chain_i[a] == 0 else ORDER_PLAIN
+            need2, needi = (ORDER_EX_L2, ORDER_EX_INF) if ex else (plain, plain)
             if o2 < need2 or oi < needi:
                 grid = "%sx%s->%sx%s" % (rs[a]["nr"], rs[a]["nt"], rs[a + 1]["nr"], rs[a + 1]["nt"])
                 key = ("F1:order:%s" % name) if is_f1 else "order:%s:%s" % ("extrapolated" if ex else "plain", name)
@@ -114,6 +120,24 @@ def main(tier):
                               "(max) on %s, required >= %.2f / %.2f; errors %s" %
                               (name, "implicit extrapolation" if ex else "no extrapolation", cfg["dirbc"], cfg["strat"], cfg["cc"],
                                cfg["cg"], o2, oi, grid, need2, needi, ["%.3g" % x for x in e2]), {"config": cfg, "chain": list(chain_i)})
+    # the converged discrete solution does not depend on the stencil strategy or on the caches: on every grid of the chain the
+    # errors of all variants of one triple agree (clean tree: to 2e-10 relative)
+    grp_n = 0
+    for (name, dirbc, extr, d), v in groups.items():
+        if len(v) < 2:
+            continue
+        grp_n += 1
+        for j, norm in ((0, "weighted l2"), (1, "max")):
+            lo = min(v, key=lambda x: x[j])
+            hi = max(v, key=lambda x: x[j])
+            if hi[j] > lo[j] * (1 + VARIANT_TOL):
+                rep.violation("variant-dependent-solution:%s" % ("extrapolated" if extr else "plain"),
+                              "%s (DirBC_Interior=%d, %s) on %s: the %s error depends on the variant: %.6g with strategy=%d caches=%d%d, "
+                              "%.6g with strategy=%d caches=%d%d" % (name, dirbc, "implicit extrapolation" if extr else "no extrapolation",
+                                                                     hi[3], norm, hi[j], hi[2]["strat"], hi[2]["cc"], hi[2]["cg"],
+                                                                     lo[j], lo[2]["strat"], lo[2]["cc"], lo[2]["cg"]),
+                              {"config": hi[2], "other": lo[2], "chain": [d], "kind": "variant"})
+                break
     # on the finest grid of the chain the extrapolated solution is the more accurate one
     cmp_n = 0
     for (name, dirbc, strat, cc, cg, extr), (e2, ei) in errs.items():
@@ -132,8 +156,9 @@ def main(tier):
         "distinct_nontrivial": len(cfgs),
         "refinement_pairs_judged": pairs,
         "extrapolated_vs_plain_comparisons": cmp_n,
+        "variant_groups_compared": grp_n,
         "lowest_orders_healthy_triples": worst,
-        "thresholds": {"plain": ORDER_PLAIN, "extrapolated_l2": ORDER_EX_L2, "extrapolated_max": ORDER_EX_INF},
+        "thresholds": {"plain": ORDER_PLAIN, "plain_first_pair_17x32": ORDER_PLAIN_COARSE, "extrapolated_l2": ORDER_EX_L2, "extrapolated_max": ORDER_EX_INF},
         "rule": "63 shipped smooth triples (3 geometries x 3 problems x 7 coefficient classes) x interior boundary x {give, take"
                 "%s} x extrapolation {none, implicit}, each solved (FMG, relative tolerance 1e-12, <= 60 cycles) on the chain "
                 "divideBy2 = %s of the 17x32 base grid; orders from error ratios of successive refinements, errors computed by "
@@ -152,6 +177,26 @@ def replay(path):
         return 2
     binary = _build()
     cfg, chain = rp["config"], rp.get("chain", [1, 2])
+    if rp.get("kind") == "variant":
+        outs = []
+        for _ in range(2):
+            lines = []
+            for tag, c0 in (("a", cfg), ("b", rp["other"])):
+                c = dict(c0)
+                c["div2"] = chain[0]
+                lines.append((tag, gl.line_of(tag, c)))
+            res = gl.run_cases(binary, lines, chunk=1)
+            outs.append([(res[t].get("he2"), res[t].get("heinf")) for t in "ab"])
+        if outs[0] != outs[1]:
+            print("replay is not deterministic; refusing to report")
+            return 2
+        (a2, ai), (b2, bi) = [(float(x), float(y)) for x, y in outs[0]]
+        print("errors %g %g vs %g %g" % (a2, ai, b2, bi))
+        if max(a2, b2) > min(a2, b2) * (1 + VARIANT_TOL) or max(ai, bi) > min(ai, bi) * (1 + VARIANT_TOL):
+            print("VIOLATION property=%s replay=%s" % (PID, path))
+            return 1
+        print("replay: property held")
+        return 0
     outs = []
     for _ in range(2):
         lines = []
@@ -167,9 +212,10 @@ def replay(path):
     e2 = [float(a) for a, _ in outs[0]]
     ei = [float(b) for _, b in outs[0]]
     ex = cfg["extr"] == 1
-    need2, needi = (ORDER_EX_L2, ORDER_EX_INF) if ex else (ORDER_PLAIN, ORDER_PLAIN)
     fail = False
     for a in range(len(chain) - 1):
+        plain = ORDER_PLAIN_COARSE if chain[a] == 0 else ORDER_PLAIN
+        need2, needi = (ORDER_EX_L2, ORDER_EX_INF) if ex else (plain, plain)
         o2 = math.log(e2[a] / e2[a + 1]) / math.log(2.0)
         oi = math.log(ei[a] / ei[a + 1]) / math.log(2.0)
         print("orders %.2f %.2f (need %.2f %.2f)" % (o2, oi, need2, needi))
